@@ -204,7 +204,11 @@ class SmGen(WorldGen):
                 else:
                     t = self.make_atv(r.choice(old))
             if kind == "fork":
-                t = self.make_atv(self.ensure_side(anc))
+                # an ALT block on a sibling fork; preferably one the history instance has seen (connected, activated,
+                # abandoned), below the new block and inside the settlement interval
+                fp = [x for x in sorted(getattr(self, "fork_pool", ()), key=lambda a: int(a[1:]))
+                      if x in self.alt and x not in anc and x != "a0" and 0 < h - self.alt[x]["height"] <= settle]
+                t = self.make_atv(r.choice(fp) if fp else self.ensure_side(anc))
             elif kind == "unkn":
                 t = self.make_atv(self.ensure_unshown(anc))
             elif kind == "nobop":
@@ -840,16 +844,29 @@ def gen_c02_spfork(ctx, sc, n_hist):
             a = g.build_block(a, n_atv=r.below(2), n_extra=r.below(2))
         kv = g.alt[a]["kv"]
         base = max(kv, key=lambda v: (g.vbk[v]["height"], -int(v[1:])))
-        k = r.range(1, 4)
-        d = r.choice([0, 0, 0, 0, 1, -1]) if k > 1 else r.choice([0, 0, 0, 1])
+        # mode "lose": q is shorter and stays the losing fork; one of its blocks (delivered as plain context) contains a
+        # VTB that only the target delivers, so the VTB group runs - and is rolled back - off the VBK best chain
+        lose = r.chance(1, 3)
+        if lose:
+            k = r.range(2, 5)
+            d = -r.range(1, min(2, k - 1))
+        else:
+            k = r.range(1, 4)
+            d = r.choice([0, 0, 0, 0, 1, -1]) if k > 1 else r.choice([0, 0, 0, 1])
         p, q = [], []
         v = base
         for _ in range(k):
             v = g.mine_vbk(parent=v)
             p.append(v)
         v = base
-        for _ in range(k + d):
-            v = g.mine_vbk(parent=v)
+        wq = None
+        jq = r.below(k + d) if lose else -1
+        for i in range(k + d):
+            if i == jq:
+                wq = g.make_vtb(v, g.last_btc(a, []), vparent=v)
+                v = g.vtb[wq]["containing"]
+            else:
+                v = g.mine_vbk(parent=v)
             q.append(v)
         a1 = g.new_alt(a)
         g.set_pd(a1, ctx=p)
@@ -859,11 +876,17 @@ def gen_c02_spfork(ctx, sc, n_hist):
         H.on("set", a2)
         H.on("sm")
         for t in range(r.range(1, 3)):
-            g.vtip = q[-1]                        # payloads of the target are mined on top of q
             par = r.choice([a2, a2, a1])
-            plant = r.choice([("atv", 0, r.choice(ATV_BAD_KINDS)), ("ctx", 1), ("vtb", 0, r.choice(VTB_BAD_KINDS)),
-                              ("atv", 1, r.choice(ATV_BAD_KINDS))])
-            tgt = g.build_block(par, n_atv=r.below(2), n_extra=3 if plant[0] == "ctx" else r.range(1, 2), plant=plant)
+            if lose:
+                g.vtip = p[-1]
+                ats = [g.make_atv(r.choice([x for x in g.ancestry(par) if x != "a0"]))] if r.chance(1, 2) else []
+                extra = [g.mine_vbk() for _ in range(r.below(2))]
+                tgt = g.build_from(par, [wq], ats, extra, plant=("atv", len(ats), r.choice(ATV_BAD_KINDS)))
+            else:
+                g.vtip = q[-1]                        # payloads of the target are mined on top of q
+                plant = r.choice([("atv", 0, r.choice(ATV_BAD_KINDS)), ("ctx", 1), ("vtb", 0, r.choice(VTB_BAD_KINDS)),
+                                  ("atv", 1, r.choice(ATV_BAD_KINDS))])
+                tgt = g.build_block(par, n_atv=r.below(2), n_extra=3 if plant[0] == "ctx" else r.range(1, 2), plant=plant)
             H.show(tgt, order="inorder")
             H.on(r.choice(["set", "set", "cmp"]), tgt)
             H.on("sm")
@@ -876,7 +899,7 @@ def gen_c02_spfork(ctx, sc, n_hist):
         H.on("sm")
         sc.add(g)
         sc.bump("c02_spfork_histories")
-        sc.bump("c02_spfork_tied" if d == 0 else "c02_spfork_untied")
+        sc.bump("c02_spfork_vtb_in_losing_fork" if lose else ("c02_spfork_tied" if d == 0 else "c02_spfork_untied"))
 
 
 def gen_c02_btcfork(ctx, sc, n_hist):
@@ -983,7 +1006,7 @@ def sp_tie(g, tips):
     return len(leaves) >= 3 or sum(1 for v in leaves if g.vbk[v]["height"] == hmax) >= 2
 
 
-def c01_twin_tail(g, sc, r, spf, cands=None, n_cmp=4):
+def c01_twin_tail(g, sc, r, spf, cands=None, n_cmp=4, shown=None):
     """twin A B (fresh instance shown only A's active chain), then the comparisons that must agree; with spf the
     comparisons are guarded by the SP carve-out (evaluated later on the tips the harness reports)"""
     pre = "h%d" % len(sc.gens)
@@ -1004,9 +1027,25 @@ def c01_twin_tail(g, sc, r, spf, cands=None, n_cmp=4):
     t0 = tipline()
     both("POP state after the history vs fresh instance shown only the active chain", "obs", "pop", guard=(t0, None))
     both("payouts", "payouttip", guard=(t0, None))
-    ids = sorted(g.alt, key=lambda a: int(a[1:]))
+    # Blocks with a planted invalid payload in their ancestry are compared on FIRST encounter only (built right below):
+    # an instance that has validated such a block before answers 1 from the cached FAILED_POP mark, a fresh one may
+    # answer 0 from the keystone short-cut without validating it - validity marks are not part of the POP state.
+    def clean(x):
+        return not any(y in g.planted_blocks for y in g.ancestry(x))
+    ids = [x for x in sorted(g.alt, key=lambda a: int(a[1:])) if clean(x)]
+    cands = [x for x in cands if clean(x)] if cands else cands
     for _ in range(n_cmp):
         c = r.choice(cands) if cands and not r.chance(1, 4) else r.choice(ids)
+        if shown is not None and r.chance(1, 3):
+            # the candidate may be INVALID: a fresh block with one planted invalid ATV whose invalidity depends only on
+            # the candidate's own ancestry (endorsed block on a sibling fork that only A has seen / never shown to
+            # anybody / expired / block of proof not connecting). Both instances must give the same verdict.
+            g.fork_pool = set(shown)
+            kind = r.choice(["fork", "fork", "unkn", "expired", "nobop"])
+            c = g.build_block(c, n_atv=r.below(2), n_extra=r.below(2), plant=("atv", r.below(2), kind))
+            g.fork_pool = ()
+            sc.bump("c01_twin_invalid_candidates")
+            sc.bump("c01_twin_invalid_candidate_" + g.bad.get(g.alt[c]["atvs"][-1] if g.alt[c]["atvs"] else None, "other"))
         g.emit("show A %s" % c)
         g.emit("show B %s" % c)
         t1 = tipline()
@@ -1100,7 +1139,7 @@ def gen_c01_vtbfork(ctx, sc, n_hist, steps):
             elif route == 1:
                 H.on("set", r.choice([y2, x1]))
             H.on(r.choice(["set", "set", "cmp"]), tgt)
-            c01_twin_tail(g, sc, r, True, cands=key, n_cmp=2)
+            c01_twin_tail(g, sc, r, True, cands=key, n_cmp=2, shown=H.hdr)
             sc.bump("c01_twin_rounds_vtb_fork")
         sc.add(g, modelled=False)
         sc.bump("c01_histories")
@@ -1119,6 +1158,7 @@ def gen_c01(ctx, sc, n_hist, steps, sp_forks=0):
         fork_tips = None
         if spf:
             g.no_vtb = True
+        early_at = r.below(steps) if (not spf and k % 4 == 1) else -1
         for i in range(steps):
             if spf and fork_tips is None and i >= steps // 4 and g.vbk[g.vtip]["height"] >= 3:
                 # start a second VBK fork a few blocks behind the tip
@@ -1136,12 +1176,16 @@ def gen_c01(ctx, sc, n_hist, steps, sp_forks=0):
                 fork_tips[cur] = g.vtip
                 cur = r.below(2)
                 g.vtip = fork_tips[cur]
+            if early_at == i:
+                # VTBs out of temporal order + a VBK reorg below the later one, in A's history only
+                H.early_scenario()
+                sc.bump("c01_valid_only_by_later_sp_blocks")
             H.step()
             if not destructive and not spf and i % 8 == 7:
                 H.on("sm")
         if fork_tips is not None:
             fork_tips[cur] = g.vtip
-        c01_twin_tail(g, sc, r, spf)
+        c01_twin_tail(g, sc, r, spf, shown=H.hdr)
         sc.add(g, modelled=False)
         sc.bump("c01_histories")
 
@@ -1228,7 +1272,7 @@ def run_check(ctx, pid):
         if pid == "C02":
             if quick:
                 gen_c02(ctx, sc, 25, 4, 4, 12)
-                gen_c02_spfork(ctx, sc, 12)
+                gen_c02_spfork(ctx, sc, 15)
                 gen_c02_btcfork(ctx, sc, 10)
             else:
                 gen_c02(ctx, sc, 500, 12, 6, 300)
